@@ -29,6 +29,11 @@ def check(ctx, which=None):
     pairs = [dl.gen_pair(rng) for _ in range(n)]
     # look-alike identifiers (case-only differences, shared prefixes, non-ASCII letters) in a third of the pairs
     pairs = [dl.restyle(rng, *p) if i % 3 == 1 else p for i, p in enumerate(pairs)]
+    # kept functions whose two independent statements were exchanged: another fingerprint, yet every instruction
+    # finds its partner (the report calls them preserved without a fingerprint match)
+    ind = [{"name": "I%d" % i, "shape": "indep", "k": i, "origin": "ind%d" % i} for i in range(1, 5)]
+    pairs.append((ind + [{"name": "Keep2", "shape": "loop", "k": 1, "origin": "keep2"}],
+                  [dict(f, edit="swap") if i % 2 == 0 else dict(f) for i, f in enumerate(ind)] + [{"name": "Keep2", "shape": "loop", "k": 1, "origin": "keep2"}]))
     # the wrapper / worker idiom: two functions whose names differ only in case, one kept, one removed or renamed
     for fate in ("remove", "rename"):
         for recv in (None, "T1"):
